@@ -203,10 +203,17 @@ func SendNode(nc *nats.Conn, node data.NodeEdge, origin string) error {
 		return fmt.Errorf("Error sending node: %v", err)
 	}
 
-	if len(node.EdgePoints) <= 0 {
+	hasTombstone := false
+	for _, p := range node.EdgePoints {
+		if p.Type == data.PointTypeTombstone {
+			hasTombstone = true
+		}
+	}
+
+	if !hasTombstone {
 		// edge should always have a tombstone point, set to false for root node
-		node.EdgePoints = []data.Point{{Time: time.Now(),
-			Type: data.PointTypeTombstone, Origin: origin}}
+		node.EdgePoints = append(node.EdgePoints, data.Point{Time: time.Now(),
+			Type: data.PointTypeTombstone, Origin: origin})
 	}
 
 	node.EdgePoints = append(node.EdgePoints, data.Point{
